@@ -90,6 +90,27 @@ def memoised_codec(ctx: Ctx, chk, entry=("load", "dump", "loads", "dumps")) -> N
             if isinstance(node, ast.Call) and norm(node.func).rsplit(".", 1)[-1] in ("lru_cache", "cache") and any(isinstance(a, ast.Attribute) and a.attr in entry for x in [node] + [p_ for p_ in [ctx.prog.parents.get(node)] if isinstance(p_, ast.Call)] for a in x.args):
                 chk.instance(rule)
                 chk.refute(rule, fkey(f, node) + "::memoised-codec", f"`{norm(ctx.prog.parents.get(node) if isinstance(ctx.prog.parents.get(node), ast.Call) else node)[:70]}` memoises a codec entry point: repeated lines / messages share one mutable result", ctx.loc(f, node))
+    # ... nor around a function of the package that calls one (a decorated helper, or `cache(self._dump)`)
+
+    def calls_entry(fn) -> bool:
+        return any(isinstance(n_, ast.Call) and isinstance(n_.func, ast.Attribute) and n_.func.attr in entry for n_ in ctx.own_nodes(fn))
+
+    memo = ("lru_cache", "cache", "cached_property")
+    for f in ctx.prog.all_functions():
+        if any(d.split("(")[0].rsplit(".", 1)[-1] in memo for d in f.decorator_names) and calls_entry(f):
+            chk.instance(rule)
+            chk.refute(rule, f"{f.fq}::memoised-codec", f"{f.qualname} is memoised and calls a codec entry point: repeated lines / messages share one result", f.where)
+        for node in ctx.own_nodes(f):
+            if not (isinstance(node, ast.Call) and norm(node.func).rsplit(".", 1)[-1] in memo[:2]):
+                continue
+            outer = ctx.prog.parents.get(node)
+            for x in [node] + ([outer] if isinstance(outer, ast.Call) and outer.func is node else []):
+                for a in x.args:
+                    if isinstance(a, ast.Attribute) and isinstance(a.value, ast.Name) and a.value.id in ("self", "cls") and f.cls is not None:
+                        h = f.cls.find_method(a.attr)
+                        if h is not None and calls_entry(h):
+                            chk.instance(rule)
+                            chk.refute(rule, fkey(f, node) + "::memoised-codec", f"`{norm(x)[:70]}` memoises {h.qualname}, which calls a codec entry point: a message object that was sent before and changed since is written in its old encoding (repeated lines share one mutable Message)", ctx.loc(f, node))
 
 
 def decl1(ctx: Ctx, chk) -> None:
